@@ -230,6 +230,10 @@ class BaseCarver(BaseDiscretizer):
         # checking for not provided y
         assert y is not None, f" - [AutoCarver] y must be provided {y}"
 
+        # checking for not provided y_dev
+        if X_dev is not None:
+            assert y_dev is not None, " - [AutoCarver] y_dev must be provided with X_dev"
+
         return x_copy, x_dev_copy
 
     def _combination_formatter(self, combination: list[list[str]]) -> dict[str, str]:
